@@ -23,10 +23,11 @@ import (
 // deferred final round) instead of calling checkEvent / checkFinal directly.
 //
 // The loop runs in its own goroutine and receives the events one at a time on
-// an unbuffered channel: the send of event i+1 is accepted only when the loop
-// is back at its select, i.e. when event i has been processed completely, so
-// the outputs drained at that point are exactly those of event i (and the
-// first drain, before event 0 is accepted, those of the initial round).  A
+// an unbuffered channel.  After every event a no-op barrier event (an act
+// change, which the audition only records) is sent: it is accepted only when
+// the loop is back at its select, i.e. when the event has been processed
+// completely, so the outputs drained at that point are exactly those of that
+// event (the very first barrier delimits the initial round).  A
 // "final" event closes the history: the epoch is moved so that the wall-clock
 // `elapsed` of checkFinal lands at its Ts, and terminate{} is sent, as the
 // spotlight supervisor does at the end of a play.  If the loop returns early
@@ -184,6 +185,11 @@ func VerifAuditLoop(cfgText string, events []VerifEvent, earlyExit bool) (res Ve
 			return false
 		}
 	}
+	barrier := func() bool { return send(&actChange{ts: 0, actNum: 0}) }
+	// the initial round
+	if barrier() {
+		drain(-1)
+	}
 	prev := -1
 	for i, e := range events {
 		if finished {
@@ -210,24 +216,25 @@ func VerifAuditLoop(cfgText string, events []VerifEvent, earlyExit bool) (res Ve
 			aev = ev
 		case "final":
 			// wait for the previous event to be finished, then end the play
+			prev = i
 			if send(terminate{}) {
-				drain(prev)
 				err := <-done
 				finish(err)
 			}
-			prev = i
 			continue
 		}
+		prev = i
 		if !send(aev) {
 			break
 		}
-		drain(prev) // the outputs of the previous event (or of the initial round)
-		prev = i
+		if !barrier() {
+			break
+		}
+		drain(i)
 	}
 	if !finished {
 		// history without a final event: end the play now
 		if send(terminate{}) {
-			drain(prev)
 			finish(<-done)
 		}
 	}
